@@ -146,6 +146,25 @@ func walFacts() {
 	add("walRolloverFlushesSegment", "Bool", boolLean(iFl >= 0 && iCl > iFl), "server/wal/wal_impl.go: (*wal).rolloverSegment",
 		"with SyncData the current segment is flushed before it is closed and replaced")
 
+	// a sync that races with a rollover does not fail: the sync goroutine flushes the segment it chose
+	// without the WAL lock; a segment that was rolled over meanwhile has been flushed before it was closed
+	rsy := funcDecl(w, "wal", "runSync")
+	rsb := ""
+	if rsy != nil {
+		rsb = squash(src(rsy.Body))
+	}
+	rwf := parse("server/wal/readwrite_segment.go")
+	fl := funcDecl(rwf, "readWriteSegment", "Flush")
+	flb := ""
+	if fl != nil {
+		flb = squash(src(fl.Body))
+	}
+	add("walSyncToleratesRollover", "Bool", boolLean(
+		strings.Contains(rsb, "if err = segment.Flush(); err != nil && t.isRolledOver(segment) {") &&
+			strings.Contains(flb, "if ms.closed {") && strings.Contains(flb, "return nil }")),
+		"server/wal/wal_impl.go: (*wal).runSync; server/wal/readwrite_segment.go: (*readWriteSegment).Flush",
+		"a failed flush of a segment that is no longer the current one is not an error; a closed segment is not flushed again")
+
 	// LastOffset() reports the synced offset
 	lo := funcDecl(w, "wal", "LastOffset")
 	synced := lo != nil && strings.Contains(squash(src(lo.Body)), "return t.lastSyncedOffset.Load()")
